@@ -61,7 +61,14 @@ BUDGET_S = (240, 3600)
 MARKER = b"C15-application-data-marker"
 
 # ------------------------------------------------------------------------------------------------ row coordinates
-IDENT_FORMS = ["dns3", "dns4", "idn", "upper", "single", "ipv4", "ipv6", "ipv6-long"]
+IDENT_FORMS = ["dns3", "dns4", "idn", "upper", "single", "ipv4", "ipv6", "ipv6-long",
+               # identities that are valid host names but that OpenSSL refuses to be configured for (may fail closed)
+               "onechar", "trailingdot",
+               # strings that are not DNS names at all (RFC 1035 2.3.4: empty label, label > 63 octets, empty name): they can
+               # reach server.sni through the server address / an addon, tls_start_server raises while configuring the name
+               # check and the addon manager swallows that; nothing can be verified for them, so nothing may be accepted
+               "longlabel", "emptylabel", "leadingdot", "empty"]
+UNVERIFIABLE = ("longlabel", "emptylabel", "leadingdot", "empty")
 SAN_DNS = ["exact", "exact-case", "multi", "mismatch", "sibling", "wild-ok", "wild-deep", "wild-self", "wild-bare", "wild-double",
            "partial-prefix", "partial-suffix", "partial-mid", "wild-inner", "cn-only", "cn-right-san-wrong", "ip-san-only"]
 SAN_IP = ["ip-exact", "ip-multi", "ip-mismatch", "ip-as-dns", "cn-only", "dns-only"]
@@ -72,11 +79,23 @@ MODES = ["eager", "lazy", "client-sni", "explicit-sni"]
 VERS = ["1.3", "1.2"]
 
 _DEFAULT_LABELS = {"dns3": ["www", "example", "test"], "dns4": ["a", "b", "example", "test"], "idn": ["bücher", "example", "test"],
-                   "upper": ["WWW", "Example", "TEST"], "single": ["localhost"]}
+                   "upper": ["WWW", "Example", "TEST"], "single": ["localhost"], "onechar": ["s"],
+                   "trailingdot": ["www", "example", "test", ""], "longlabel": ["a" * 64, "example", "test"],
+                   "emptylabel": ["a", "", "example", "test"], "leadingdot": ["", "example", "test"], "empty": [""]}
+SAN_UNVERIFIABLE = ["exact", "mismatch", "wild-ok", "cn-only", "multi"]
+_STANDIN = ["www", "example", "test"]  # what the (trusted-CA) certificate shown to an unverifiable identity is issued for
 
 
 def is_ip_form(f):
     return f.startswith("ipv")
+
+
+def _sans_for(ident):
+    if is_ip_form(ident):
+        return SAN_IP
+    if ident in UNVERIFIABLE or ident in ("onechar", "trailingdot"):
+        return SAN_UNVERIFIABLE
+    return SAN_DNS
 
 
 def identity(case):
@@ -90,8 +109,21 @@ def identity(case):
         return (ip.exploded if f == "ipv6-long" else ip.compressed), ("ip", ip.packed)
     labels = list(case.get("labels") or _DEFAULT_LABELS[f])
     host = ".".join(labels)
+    if not valid_dns_name(labels):
+        return host, ("none", list(_STANDIN))
+    if f == "trailingdot":
+        labels = labels[:-1]  # the absolute form names the same host (RFC 6125 compares without the final dot)
     ref = [_alabel(x) for x in labels]
     return host, ("dns", ref)
+
+
+def valid_dns_name(labels) -> bool:
+    """RFC 1035 2.3.4 / 3.1: labels of 1..63 octets, only the root label (a final dot) may be empty, <= 253 octets"""
+    if labels and labels[-1] == "" and len(labels) > 1:
+        labels = labels[:-1]
+    if not labels or sum(len(_alabel(x)) + 1 for x in labels) > 254:
+        return False
+    return all(1 <= len(_alabel(x)) <= 63 for x in labels)
 
 
 def _alabel(label: str) -> str:
@@ -147,6 +179,8 @@ def san_list(case, ref):
 def ref_name_match(ref, cn, sans) -> bool:
     """RFC 6125 6.4 (+ RFC 2818 for IP): only subjectAltName counts"""
     kind, val = ref
+    if kind == "none":
+        return False  # not a DNS name and not an IP address: no certificate can name it
     for s in sans:
         if not isinstance(s, str):
             s = s.value  # DNSName object built on purpose (IP literal as dNSName)
@@ -186,7 +220,8 @@ def fails_closed_ok(case) -> bool:
     """identities the verifier cannot be configured for (OpenSSL refuses them): rejecting an otherwise fine row is allowed"""
     host, ref = identity(case)
     if ref[0] == "dns":
-        return any(len(x) < 2 for x in ref[1]) and len(ref[1]) == 1 or any(len(x) > 63 for x in ref[1])
+        return (any(len(x) < 2 for x in ref[1]) and len(ref[1]) == 1 or any(len(x) > 63 for x in ref[1])
+                or case["ident"] == "trailingdot")
     return False
 
 
@@ -199,7 +234,7 @@ _ulab = st.tuples(_lab, st.sampled_from(["ü", "é", "例", "αβ"]), st.text("a
 
 @st.composite
 def _rows(draw):
-    ident = draw(st.sampled_from(IDENT_FORMS))
+    ident = draw(st.sampled_from(IDENT_FORMS + IDENT_FORMS[:8]))  # ordinary identities twice as often as the odd ones
     case = {"ident": ident}
     if ident == "ipv4":
         case["ip"] = str(ipaddress.IPv4Address(draw(st.integers(0x01000001, 0xDFFFFFFE))))
@@ -208,6 +243,21 @@ def _rows(draw):
                                                               st.integers(1, 0xFFFF).map(lambda x: (0x20010DB8 << 96) + x)))))
     elif ident == "single":
         case["labels"] = [draw(_tld_lab)]
+    elif ident == "onechar":
+        case["labels"] = [draw(st.sampled_from(list("sxq7")))]
+    elif ident == "empty":
+        case["labels"] = [""]
+    elif ident in ("trailingdot", "longlabel", "emptylabel", "leadingdot"):
+        labels = [draw(_lab_h), draw(_lab_h), draw(_tld_lab)]
+        if ident == "trailingdot":
+            labels.append("")
+        elif ident == "longlabel":
+            labels[draw(st.integers(0, 2))] = draw(st.sampled_from("abz")) * draw(st.integers(64, 70))
+        elif ident == "emptylabel":
+            labels.insert(draw(st.integers(1, 2)), "")
+        else:
+            labels.insert(0, "")
+        case["labels"] = labels
     else:
         n = 4 if ident == "dns4" else 3
         labels = [draw(_lab_h) for _ in range(n - 1)] + [draw(_tld_lab)]  # an all-numeric last label would make it an IPv4 look-alike
@@ -216,7 +266,7 @@ def _rows(draw):
         if ident == "upper":
             labels = [x.upper() if i % 2 == 0 else x.capitalize() for i, x in enumerate(labels)]
         case["labels"] = labels
-    case["san"] = draw(st.sampled_from(SAN_IP if is_ip_form(ident) else SAN_DNS))
+    case["san"] = draw(st.sampled_from(_sans_for(ident)))
     case["chain"] = draw(st.sampled_from(CHAINS + ["direct", "direct", "inter-sent"]))
     case["time"] = draw(st.sampled_from(TIMES + ["valid", "valid", "valid"]))
     case["trust"] = draw(st.sampled_from(TRUSTS + ["file", "dir"]))
@@ -238,7 +288,7 @@ def matrix():
     rows = []
     i = 0
     for ident in IDENT_FORMS:
-        for san in (SAN_IP if is_ip_form(ident) else SAN_DNS):
+        for san in _sans_for(ident):
             combos = [("direct", "valid", "file")]
             combos += [(c, "valid", "file") for c in CHAINS[1:]]
             combos += [("direct", t, "file") for t in TIMES[1:]]
@@ -301,8 +351,10 @@ def check_case(case, ctx):
     acceptable = ref_acceptable(case)
     insecure = bool(case["insecure"])
     mode = case["mode"]
-    if mode == "client-sni" and ref[0] == "ip":
-        mode = "eager"  # a client cannot put an IP literal into SNI
+    if mode == "client-sni" and (ref[0] != "dns" or case["ident"] in ("onechar", "trailingdot")):
+        mode = "eager"  # a client cannot put an IP literal (or something that is not a host name) into SNI
+    if host == "":
+        mode = "explicit-sni"  # server.sni = "" (SNI disabled by an addon); an empty address cannot be connected to
     opts = {"ssl_insecure": insecure, "ssl_verify_upstream_trusted_ca": None, "ssl_verify_upstream_trusted_confdir": None,
             "connection_strategy": "lazy" if mode == "lazy" else "eager"}
     if case["trust"] == "file":
@@ -394,7 +446,7 @@ def check_case(case, ctx):
 
     tag = "%s/%s/%s/%s" % (case["san"], case["chain"] if case["chain"] != "direct" else "", case["time"] if case["time"] != "valid" else "",
                            case["trust"] if case["trust"] != "file" else "")
-    tag = tag.rstrip("/") + (":ip" if ref[0] == "ip" else "")
+    tag = tag.rstrip("/") + (":ip" if ref[0] == "ip" else ":not-a-hostname" if ref[0] == "none" else "")
     trivial = (case["san"] in ("exact", "ip-exact") and case["chain"] == "direct" and case["time"] == "valid"
                and case["trust"] == "file" and not insecure)
     if trivial:
@@ -409,6 +461,19 @@ def check_case(case, ctx):
     established = bool(c.server.tls_established)
     names = d.hook_names()
     want = True if insecure else acceptable
+    if insecure and (ref[0] == "none" or fails_closed_ok(case)):
+        # "ssl_insecure on => handshakes succeed" is about certificates; whether a connection to something that is not a
+        # host name (or that OpenSSL refuses as one) can be set up at all is not part of the statement
+        ctx.cls("unverifiable-identity-insecure:%s" % ("established" if established else "failed"))
+        want = established
+    # tls_start_server raised (swallowed by the addon manager) and the layer neither completed nor failed the handshake:
+    # no error, no failure hook, no close, a waiting child never gets its OpenConnection reply -- the connection just hangs
+    stalled = (not established and bool(e.addon_errors) and not c.server.error and "tls_failed_server" not in names
+               and c.server.state.name != "CLOSED")
+    if stalled:
+        ctx.fail("stalls-when-tls_start_server-raises:%s" % type(e.addon_errors[0][1]).__name__,
+                 "host=%r mode=%s: hook raised %r; afterwards no error, no tls_failed_server, connection still open, child replies %r"
+                 % (host, mode, e.addon_errors[0][1], [x for x in rec.log if x[0] == "opened"]))
 
     if established and not want:
         ctx.fail("accepted-bad-certificate:%s" % tag, "host=%r cn=%r sans=%r chain=%s time=%s trust=%s: handshake completed with "
@@ -438,15 +503,15 @@ def check_case(case, ctx):
         if bytes(S.plain) != MARKER:
             ctx.fail("marker-not-delivered", "server peer decrypted %r" % bytes(S.plain)[:60])
     else:
-        if not c.server.error:
+        if not c.server.error and not stalled:
             ctx.fail("failure-without-error:%s" % mode, "server.error=%r" % (c.server.error,))
-        if "tls_failed_server" not in names:
+        if "tls_failed_server" not in names and not stalled:
             ctx.fail("failure-without-hook:%s" % mode, "hooks=%r addon_errors=%r" % (names, e.addon_errors[:1]))
         if "tls_established_server" in names:
             ctx.fail("established-hook-on-failure", "hooks=%r" % (names,))
-        if not any(t[0] == "close" and t[1] is c.server for t in d.trace) and c.server.state.name != "CLOSED":
+        if not any(t[0] == "close" and t[1] is c.server for t in d.trace) and c.server.state.name != "CLOSED" and not stalled:
             ctx.fail("failure-without-close:%s" % mode, "server state %s" % c.server.state)
-        if mode == "lazy":
+        if mode == "lazy" and not stalled:
             errs = [x[1] for x in rec.log if x[0] == "opened"]
             if len(errs) != 1 or not errs[0]:
                 ctx.fail("open-reply-on-failure", "child got OpenConnection replies %r" % (errs,))
